@@ -222,6 +222,7 @@ def shard(desc):
             c.meta.pop('in_range', None)
             c.meta['expect_len'] = [lens[0], lens[1]]
             marks = emit_checks(c, typ, is_hist, edges)
+            c.meta['marks'] = marks
             cases.append(c)
             plan.append((c, marks, typ, is_hist))
     # random long histories
@@ -251,6 +252,7 @@ def shard(desc):
         c.meta.pop('in_range', None)
         c.meta['expect_len'] = [lens[0], lens[1]]
         marks = emit_checks(c, typ, is_hist, edges)
+        c.meta['marks'] = marks
         cases.append(c)
         plan.append((c, marks, typ, is_hist))
         res.count('random_histories')
@@ -312,3 +314,8 @@ def run(tier, seed):
     return common.finish(PROP, tier, seed, total, RULE, t0, ASSUME, min_events=need,
                          extra={'builds': [v for v, _ in variants], 'exhaustive_history_length': L,
                                 'op_alphabet_size': len(ops)})
+
+
+def rejudge(case, recs, res, variant, v):
+    typ = case.type
+    judge_case(case, case.meta['marks'], recs, typ, typ.startswith(('H', 'CH')), res, variant)
